@@ -1841,6 +1841,12 @@ loop:
 			atomic.StoreUint32(&c.goAway, 1)
 
 			if ga.stream == 0 {
+				// Nothing on this connection was processed, so every request
+				// on it is one the server disclaimed: answered here and now,
+				// as for any other last-stream-id, not whenever the write loop
+				// gets round to noticing that the socket has gone.
+				c.failAbove(0)
+
 				_ = c.c.Close()
 				err = ga
 			} else {
